@@ -94,6 +94,8 @@ def _outcome(txt):
 def relevant(prop, f):
     """is this concrete disagreement a violation of `prop`?  (family, stage, oracle parts, config bits)"""
     ro, eo = _outcome(f.get('real', '')), _outcome(f.get('expected', ''))
+    if f.get('family') == 'chunk' and f.get('oracle') == 'parse_chunk_size':
+        f = dict(f, oracle='status')          # a chunk-size disagreement is a status/offset/value disagreement
     accepts_forbidden = ('status' in f.get('oracle', '').split('+')) and eo in ('Err', 'Invalid') and ro not in ('Err',)
     fam, stage, orc, cfg = f.get('family'), f.get('stage'), f.get('oracle', ''), f.get('cfg', 0)
     hdr_opts = cfg & (HDR_BITS_REQ if fam == 'request' else HDR_BITS_RESP if fam == 'response' else 0)
